@@ -252,8 +252,8 @@ func areaInstance(r *Rng, n int, dir string) (*AreaOut, error) {
 			flags uint
 		}
 		var ovrs []ovr
-		if r.Chance(22) {
-			for _, o := range []ovr{{"app", 0}, {"dup", lmdb.DupSort}, {"ints", strategy.LMDBIntegerKeyFlag}, {"new1", 0}} {
+		if r.Chance(30) {
+			for _, o := range []ovr{{"app", 0}, {"dup", lmdb.DupSort}, {"dup", lmdb.DupSort}, {"ints", strategy.LMDBIntegerKeyFlag}, {"new1", 0}} {
 				if r.Chance(40) {
 					ovrs = append(ovrs, o)
 				}
@@ -464,11 +464,24 @@ func areaInstance(r *Rng, n int, dir string) (*AreaOut, error) {
 		if r.Chance(15) {
 			compat = pick(r, []uint32{0, 1, 2, 3, 4, 5})
 		}
+		if r.Chance(7) {
+			// a snapshot of a FUTURE incompatible format: compat version above what this build supports, format
+			// version at least that (what a newer sender really writes)
+			fmtv = pick(r, []uint32{4, 5, 5, 6})
+			compat = pick(r, []uint32{4, fmtv})
+		}
 		var sds []snapDBI
 		nd := 1 + r.Intn(3)
 		usedNames := map[string]bool{}
 		for j := 0; j < nd; j++ {
 			name := pick(r, []string{"app", "app", "ints", "dup", "new1", "_sync_meta", "zz"})
+			if j == 0 && !native && hack && r.Chance(70) {
+				for _, o := range ovrs { // the documented way to receive a duplicate-keys DBI: override_create_flags MDB_DUPSORT
+					if o.name == "dup" {
+						name = "dup"
+					}
+				}
+			}
 			if usedNames[name] {
 				continue
 			}
@@ -555,15 +568,21 @@ func areaInstance(r *Rng, n int, dir string) (*AreaOut, error) {
 				}
 			}
 		}
-		sn := buildSnapshot(fmtv, compat, "b", snapTS, sds)
-		upd := snapshot.Update{Snapshot: sn, NameInfo: snapshot.NameInfo{Kind: snapshot.KindSnapshot, InstanceID: "b", SyncerName: dbName, Timestamp: time.Unix(0, int64(snapTS))}}
+		// the snapshot is another instance's, or (a quarter of the cases) one of this instance's OWN name, as loaded
+		// after a restart with an LMDB that is behind it: merging does not depend on whose snapshot it is
+		snapInst := "b"
+		if r.Chance(25) {
+			snapInst = string(instSafe)
+		}
+		sn := buildSnapshot(fmtv, compat, snapInst, snapTS, sds)
+		upd := snapshot.Update{Snapshot: sn, NameInfo: snapshot.NameInfo{Kind: snapshot.KindSnapshot, InstanceID: snapInst, SyncerName: dbName, Timestamp: time.Unix(0, int64(snapTS))}}
 		var retID uint64
 		var lc bool
 		var loadErr error
 		var pan any
 		func() {
 			defer func() { pan = recover() }()
-			id, l, err := sy.LoadOnce(runCtx, env, "b", upd, header.TxnID(lastSynced))
+			id, l, err := sy.LoadOnce(runCtx, env, snapInst, upd, header.TxnID(lastSynced))
 			retID, lc, loadErr = uint64(id), l, err
 		}()
 		after, last2, _ := dumpEnv(env)
@@ -600,6 +619,17 @@ func areaInstance(r *Rng, n int, dir string) (*AreaOut, error) {
 				out.Oracle = append(out.Oracle, OracleFailure{"C18", "no-panic", fmt.Sprint(pan), in})
 			}
 		} else {
+			if !native {
+				// a shadow DBI is a plain DBI of unique keys (integer-key order transferred), whatever flags the
+				// snapshot or dbi_options.override_create_flags give the application's DBI: the dupsort hack relies on it
+				for _, d := range after {
+					if strings.HasPrefix(d.Name, shadowPrefix) && d.Flags&^strategy.LMDBIntegerKeyFlag != 0 {
+						for _, pid := range []string{"C20", "C18"} {
+							out.Oracle = append(out.Oracle, OracleFailure{pid, "shadow-dbi-is-plain", fmt.Sprintf("after LoadOnce the shadow DBI %s has LMDB flags %#x (only MDB_INTEGERKEY may be transferred to a shadow DBI)", d.Name, d.Flags), in})
+						}
+					}
+				}
+			}
 			if fmtv == 0 || compat > 3 {
 				out.Oracle = append(out.Oracle, OracleFailure{"C18", "version-gate", fmt.Sprintf("format %d / compat %d was merged", fmtv, compat), in})
 			}
@@ -754,7 +784,7 @@ func areaInstance(r *Rng, n int, dir string) (*AreaOut, error) {
 				}
 			}
 			setClock(clock + 100)
-			id2, lc2, err2 := sy.LoadOnce(ctx, env, "b", upd, header.TxnID(retID))
+			id2, lc2, err2 := sy.LoadOnce(ctx, env, snapInst, upd, header.TxnID(retID))
 			again, last3, _ := dumpEnv(env)
 			switch {
 			case snapHasDupKeys && sweep:
